@@ -46,8 +46,13 @@ Pipe(h, i) ==
       allfailed |-> outs # <<>> /\ \A k \in 1..Len(outs) : outs[k].out = "err",
       endpos |-> IF pos = <<>> THEN 0 ELSE Last(pos)]
 
+EmptyPipe == [pos |-> <<>>, evs |-> <<>>, ins |-> <<>>, outs |-> <<>>, fbs |-> <<>>, ran |-> FALSE,
+              okval |-> -1, fberr |-> 0, eres |-> 0, allfailed |-> FALSE, endpos |-> 0]
+
 Digest(cfg, h) ==
   LET n == cfg.n
+      \* items that have any event (for all others the pipeline is empty: big batches stay cheap)
+      touched == {h[k].item : k \in {j \in 1..Len(h) : IsItemEv(h[j])}}
       canc == PosWhere(h, LAMBDA e : e.ev \in {"execout", "fb", "bpost", "cancel"} /\ e.cancel)
   IN [h      |-> h,
       calls  |-> SelectSeq(h, LAMBDA e : e.ev = "runcall"),
@@ -55,7 +60,7 @@ Digest(cfg, h) ==
       posts  |-> SelectSeq(h, LAMBDA e : e.ev = "bpost"),
       postpos|-> PosWhere(h, LAMBDA e : e.ev = "bpost"),
       rets   |-> SelectSeq(h, LAMBDA e : e.ev = "runret"),
-      pipes  |-> TLCEval([i \in 1..n |-> Pipe(h, i)]),
+      pipes  |-> TLCEval([i \in 1..n |-> IF i \in touched THEN Pipe(h, i) ELSE EmptyPipe]),
       cpos   |-> IF canc = <<>> THEN 0 ELSE canc[1],            \* first cancelling event (0: none)
       ctx0   |-> \E k \in 1..Len(h) : h[k].ev = "runcall" /\ h[k].ctxdone,
       inpos  |-> PosWhere(h, LAMBDA e : e.ev = "execin"),
